@@ -174,6 +174,11 @@ SITES = {
     "subneg": ("lambda {a}: {a}.jets()[-1].tgt({ARGS})", "Jet"),
     "subexpr": ("lambda {a}: {a}.jets()[{a}.idx()].tgt({ARGS})", "Jet"),
     "subneg-d2": ("lambda {a}: {a}.jets().Select(lambda {b}: {b}.trks()[-1].tgt({ARGS}))", "Trk"),
+    # a nested operator on ANOTHER item type inside the filter of a Where, then an operator on the filtered collection
+    "where-nested-then-select": ("lambda {a}: {a}.jets().Where(lambda {b}: {b}.trks().Where(lambda {c}: {c}.q() > 1).Count() > 0)"
+                                 ".Select(lambda {b}: {b}.tgt({ARGS}))", "Jet"),
+    "select-nested-then-where": ("lambda {a}: {a}.jets().Select(lambda {b}: {b}.trks().Select(lambda {c}: {c}.q()).Count())"
+                                 ".Where(lambda v: v > {a}.tgt({ARGS})).Count()", "Ev"),
     "after2": ("lambda {a}: {a}.jets().Select(lambda {b}: {b}.trks().Select(lambda {c}: {c}.q()).First() + {b}.tgt({ARGS}))", "Jet"),
 }
 COLLVAR = "collvar"  # stage 1: Select(lambda e: e.jets()); stage 2: lambda js: js.Select(lambda j: js.First().tgt(ARGS))
@@ -208,7 +213,7 @@ class C07(Check):
                 for shape in call_shapes(n):
                     for site in list(SITES) + ["dict", "collvar"] + (list(MODEL2) if n <= 2 else []):
                         for names in (("e", "j", "t"), ("e", "e", "e")):
-                            if names[0] == names[1] and site in ("arg", "d3where", "d2fnchain"):
+                            if names[0] == names[1] and site in ("arg", "d3where", "d2fnchain", "select-nested-then-where"):
                                 continue  # these sites mention the outer parameter inside the inner lambda
                             if site in MODEL2:
                                 out.append((r, defs, shape, site, names, False))
